@@ -113,4 +113,7 @@ Section SpellText.
   Qed.
   Lemma rec_filter_spellings x y : same_step x y -> same_step (FR x) (FR y).
   Proof. intros H root lv. cbn [FiltChainAddr.nav1f]. apply flat_map_ext'. intros cu. apply H. Qed.
+  (* blanks around the operator of a comparison change nothing *)
+  Lemma spaced_comparison_spellings i a o b lit : same_step (FC i o lit) (FCS i a o b lit).
+  Proof. intros root lv. reflexivity. Qed.
 End SpellText.
